@@ -131,7 +131,8 @@ def handleC03 (toks : List String) : String :=
     match n.toNat?, parseNats? rest with
     | some n, some xs =>
       match readRowsC03 n xs with
-      | some rows => " ".intercalate ((render rows).map (fun ch => toString ch.toNat))
+      -- the text as the source writes it (`renderGen`; equal to `render` by theorem `dump_as_modelled`)
+      | some rows => " ".intercalate ((renderGen rows).map (fun ch => toString ch.toNat))
       | none => err "format"
     | _, _ => err "format"
   | "load" :: rest =>
